@@ -445,9 +445,3 @@ Proof.
   rewrite declared_decl_of in Hin. apply decl_of_In in Hin.
   destruct Hin as [e [_ [Hnb [_ [Hn _]]]]]. subst n. exact Hnb.
 Qed.
-
-Print Assumptions collect_eq.
-Print Assumptions declared_in_range.
-Print Assumptions declared_names_nodup.
-Print Assumptions declared_const_val.
-Print Assumptions declared_not_blank.
